@@ -207,21 +207,25 @@ func hasResetFor(obs *Obs, method string) bool {
 	return found
 }
 
-// panicTextMissing returns what the nil-function panic message fails to name.
+// panicTextMissing returns what the nil-function panic message fails to name:
+// the mock type, the function field and the interface method must each occur
+// as a whole identifier (a name shared by two roles must occur twice).
 func panicTextMissing(text string, c *Cell, method string) string {
-	if !strings.Contains(text, c.MockName) {
-		return "the mock type " + c.MockName
+	count := map[string]int{}
+	for _, tok := range strings.FieldsFunc(text, func(r rune) bool {
+		return !(r == '_' || r >= '0' && r <= '9' || r >= 'a' && r <= 'z' || r >= 'A' && r <= 'Z' || r > 127)
+	}) {
+		count[tok]++
 	}
-	rest := strings.ReplaceAll(text, c.MockName, " ")
-	if !strings.Contains(rest, method+"Func") {
-		return "the function field " + method + "Func"
-	}
-	rest = strings.ReplaceAll(rest, method+"Func", " ")
-	if !strings.Contains(rest, method) {
-		return "the interface method " + method
-	}
-	if !strings.Contains(rest, c.Iface) {
-		return "the interface " + c.Iface
+	for _, need := range []struct{ name, what string }{
+		{c.MockName, "the mock type " + c.MockName},
+		{method + "Func", "the function field " + method + "Func"},
+		{method, "the interface method " + method},
+	} {
+		if count[need.name] == 0 {
+			return need.what
+		}
+		count[need.name]--
 	}
 	return ""
 }
